@@ -69,6 +69,17 @@ def build_payload(case_rng, par):
         g = ginfo["guard_plain"]
         gb = half + P.rx1(bytes(x ^ y for x, y in zip(g, half[::-1][:2048])), 0x8A)
     pre = P.filler(rng, par["pre"])
+    if par.get("decoy"):
+        # an earlier guard-config candidate that cannot be unmasked: an accidental marker match, or a damaged copy of the area
+        if par["decoy"] == "marker":
+            a = P.filler(rng, 6)
+            start = P.rx1(bytes([0, rng.choice([5, 6, 7]), 0, 1, 0, 2]), 0x8A)
+            pair = a + bytes(x ^ y for x, y in zip(a[::-1], start))
+            pre = P.filler(rng, 6144 + rng.randrange(0, 40)) + pair + P.filler(rng, rng.randrange(0, 3000)) + pre
+        else:
+            bad = bytearray(gb)
+            bad[rng.randrange(0, 3000)] ^= 0x55
+            pre = bytes(bad) + P.filler(rng, rng.randrange(0, 500)) + pre
     inner = pre + gb + P.filler(rng, par["post"])
     base = len(pre)
     if par["container"] == "pe":
@@ -171,7 +182,7 @@ def check_case(case, ctx):
             return
     ctx.ok(fp=payload, case={"par": {k: v for k, v in par.items()}, "payload_len": len(payload)}, classes=(
         f"neg:{neg}", f"keylen:{'2-8' if len(par['envkey']) <= 8 else '9-64' if len(par['envkey']) <= 64 else '65-256'}",
-        f"opts:{'+'.join(map(str, par['opts']))}", f"container:{par['container']}", f"xorenc:{par['xorenc']}", f"keykind:{par['keykind']}"))
+        f"opts:{'+'.join(map(str, par['opts']))}", f"container:{par['container']}", f"xorenc:{par['xorenc']}", f"keykind:{par['keykind']}", f"decoy:{par.get('decoy')}"))
 
 
 def gen_key(rng, length):
@@ -194,13 +205,17 @@ def gen_par(rng, keylen, neg=None):
     first = rng.choice([5, 6, 7, 8])
     rest = [o for o in (5, 6, 7, 8) if o != first and rng.random() < 0.4]
     opts = [first] + sorted(rest)
-    optvals = {"5": b"\x00\x01", "6": b"\x00\x01", "7": b"\x00\x01", "8": rng.randbytes(4)}
+    def hv():  # 16-bit name hashes / addresses with every zero-byte pattern (00 00 may then appear across record boundaries)
+        return rng.choice([rng.randbytes(2), b"\x12\x00", b"\x00\x34", b"\x00\x01", rng.randbytes(1) + b"\x00"])
+
+    optvals = {"5": hv(), "6": hv(), "7": hv(), "8": rng.choice([rng.randbytes(4), b"\x0a\x00\x00\x05", b"\xc0\xa8\x01\x00", rng.randbytes(2) + b"\x00\x00"])}
     envkey, kind = gen_key(rng, keylen)
     container = rng.choice(["raw", "raw", "pe"])
     par = {
         "seed": rng.getrandbits(32), "extras": rng.random() < 0.8, "opts": opts, "optvals": optvals, "envkey": envkey, "keykind": kind,
         "neg": neg, "pre": rng.choice([0, 1, 5, 6, 100, rng.randrange(0, 3000)]), "post": rng.choice([0, 10, 500]), "container": container,
         "arch": rng.choice(["x86", "x64"]), "xorenc": rng.random() < 0.2, "stub": rng.choice([0, 57, 300]),
+        "decoy": rng.choice([None, None, None, "marker", "copy"]) if neg is None else None,
     }
     if neg == "checksum":
         par["delta"] = rng.choice([1, -1, 2, 1000, -2])
